@@ -315,6 +315,18 @@ def _clipped_both(t) -> bool:
     return other is not None and any(x[0] == "call" and T.call_name(x).endswith("." + other) for x in T.walk(t) if x is not t)
 
 
+def _fresh(t) -> bool:
+    """t is a newly built mapping on every path: a comprehension / literal / dict(...) / .copy() / .unfreeze() - never the argument itself."""
+    if t[0] == "ite":
+        return _fresh(t[2]) and _fresh(t[3])
+    if t[0] in ("comp", "dict"):
+        return True
+    if t[0] == "call":
+        n = T.call_name(t)
+        return n in ("dict", "collections.OrderedDict", "flax.core.unfreeze", "copy.copy", "copy.deepcopy") or n.endswith((".copy", ".unfreeze"))
+    return False
+
+
 def _rng0():
     return T.mk_ite(T.eq(S("rng"), T.NONE, numeric=False), T.mk_call("jax.random.PRNGKey", [T.ZERO]), S("rng"))
 
@@ -340,6 +352,10 @@ def rule_params(chk: Check, model, rid: str):
                 ok = g[0] == "not" and g[1][0] == "in" and g[1][1] == st[0].key and mentions(g[1][2], "params")
                 dflt = v
             ok = ok and dflt[0] == "call" and T.call_name(dflt).endswith(".init_params") and mentions(dflt, "self.nodes")
+        if len(st) == 1 and st[0].recv is not None:
+            tbl = T.assume(st[0].recv, T.eq(S("params"), T.NONE, numeric=False), False)
+            chk.add(rid, f"{q}: defaults are written into init's own copy of the params", _fresh(tbl), f"the table init() fills is {T.show(tbl)[:200]}: on some path this is the caller's "
+                    "own dict, so a second init() with the same dict finds every node preset (with the first call's defaults) and the caller's argument is changed", chk.loc(fi, st[0].node))
         chk.add(rid, f"{q}: user params first", bool(ok), "params[name] must be params.get(name, self.nodes[name].init_params(...))", chk.loc(fi))
         ret = r.ret
         rep = [x for x in T.walk(ret) if x[0] == "replace" or (x[0] == "call" and T.call_name(x).endswith(".replace"))]
